@@ -67,6 +67,7 @@ let handle line =
                                         | C.Inr (C.DuplicateModule (m, p, f)) -> "DUP:" ^ string_of_mod m ^ ":" ^ string_of_rpath p ^ ":" ^ string_of_rpath f
                                         | C.Inr _ -> "?"))
        | "inv" :: fs -> String.concat "" (List.map (fun f -> if C.inverse_ok o t (rpath_of_string f) then "1" else "0") fs)
+       | "noshadow" :: [] -> if C.no_shadow t && C.wf_node (C.Dir t) then "1" else "0"
        | "valid" :: [] -> if C.valid_names t && C.wf_node (C.Dir t) then "1" else "0"
        | _ -> "!BADCMD")
   | _ -> "!BADLINE"
